@@ -1,6 +1,82 @@
 """C09 - exits do not depend on the reward plumbing: dependency closure (DESIGN 6, C09)."""
 from ..xgraph import XGraph
-from .common import entry, where
+from ..callgraph import explore, call_sites, site_guarded
+from ..expr import show
+from .common import entry, where, msg_enum, variant_env, stored
+from .msgs import is_zero_const
+
+# exit messages whose handlers must not contain an unguarded division (hub: every holder-facing message; reward: claim and balance mirroring)
+DIV_ENTRIES = [("hub", v) for v in ("Bond", "BondForStSei", "Receive", "WithdrawUnbonded", "CheckSlashing")] + \
+              [("reward", v) for v in ("ClaimRewards", "IncreaseBalance", "DecreaseBalance")]
+# panicking division primitives: last path segment -> index of the divisor argument
+DIV_PRIMS = {"from_ratio": 1, "multiply_ratio": 2, "div": 1, "rem": 1, "div_assign": 1, "rem_assign": 1}
+# values the code base keeps non-zero by construction (one line of reason each)
+HUBSTATE = "basset_sei_hub::state::STATE"
+NONZERO_BY_INVARIANT = {
+    stored(HUBSTATE, "bsei_exchange_rate"): "set only by State::update_bsei_exchange_rate: 1 when the pool or the supply is empty, otherwise bonded/supply of a non-empty pool (C06)",
+    stored(HUBSTATE, "stsei_exchange_rate"): "set only by State::update_stsei_exchange_rate, same shape (C06)",
+}
+
+
+def _forms(world, e):
+    """the integer behind lossless conversions and newtype projections (Uint256::from(x), x.into(), x.u128(), Uint256(x).0): every
+    intermediate form, so that a test of any of them counts as a test of the value"""
+    out = []
+    while True:
+        e = world.ident(e, expand_ws=False)
+        out.append(e)
+        if e.op == "field" and e.info[0] == "0" and not e.info[2]:
+            e = e.args[0]
+        elif e.op == "call" and e.info.rsplit("::", 1)[-1] in ("from", "into", "u128") and len(e.args) == 1:
+            e = e.args[0]
+        else:
+            return out
+
+
+def _strip(world, e):
+    return _forms(world, e)[-1]
+
+
+def _const_nonzero(prog, world, e):
+    e = _strip(world, e)
+    if e.op == "const" and e.info[0] == "scalar":
+        return e.info[1] != 0
+    if e.op == "const" and e.info[0] == "item":
+        b = prog.body(e.info[1])
+        if b is not None:
+            return _const_nonzero(prog, world, world.ret_expr(b))
+    if e.op == "call" and e.info.rsplit("::", 1)[-1] in ("one", "new") and all(_const_nonzero(prog, world, a) for a in e.args):
+        return True
+    return False
+
+
+def nonzero_fact(world, f, resolve, cands):
+    """does edge fact f establish `d != 0` for a divisor whose (stripped) identity is one of cands? unsigned arithmetic only:
+    !d.is_zero(), d != 0, 0 < d, x < d, c <= d with c a non-zero constant"""
+    def same(x):
+        return any(y in cands for y in _forms(world, x)) or any(y in cands for y in _forms(world, resolve(x)))
+    if f[0] == "truth" and f[2] is False and f[1].op == "call" and f[1].info.endswith("::is_zero"):
+        return same(f[1].args[0])
+    if f[0] == "cmp":
+        a, b = f[2], f[3]
+        if f[1] == "Lt":
+            return same(b)
+        if f[1] == "Ne":
+            return (same(b) and is_zero_const(_strip(world, a))) or (same(a) and is_zero_const(_strip(world, b))) or \
+                   (same(b) and is_zero_const(world.ident(a))) or (same(a) and is_zero_const(world.ident(b)))
+    return False
+
+
+def division_sites(prog, world, sem):
+    out = []
+    for (c, vn) in DIV_ENTRIES:
+        ex = entry(prog, c)
+        vs = explore(sem, ex, variant_env(prog, ex, vn))
+        for (v, bb, e) in call_sites(sem, vs, lambda k: k.rsplit("::", 1)[-1] in DIV_PRIMS):
+            if v.body.crate in ("cosmwasm_bignumber", "signed_integer"):
+                continue   # the primitives' own implementation
+            out.append((c, vn, v, bb, e))
+    return out
 
 EXIT_ENTRIES = (
     [("hub", "execute", v) for v in ("Bond", "BondForStSei", "Receive", "WithdrawUnbonded", "CheckSlashing")] +
@@ -28,6 +104,38 @@ def run(prog, world, sem, rep):
              "tokens, reward claim and balance mirroring) the transitive closure over execute and smart-query edges contains no swap or oracle "
              "contract, no dispatcher swap / dispatch and no reward swap node; every cross-contract edge of the closure is in the allowed table", 29)
     rep.rule("C09.c", "positive control: the same closure started at hub UpdateGlobalIndex does reach the external swap and oracle contracts", 1)
+    rep.rule("C09.d", "no exit handler can panic in a division: every Decimal/Decimal256::from_ratio, multiply_ratio, `/` and `%` reachable from the "
+             "holder-facing hub messages and the reward contract's claim / balance mirroring has a divisor that is a non-zero constant, a value the "
+             "code base keeps non-zero by construction (table), or a value observed non-zero on every path to the call (lifted to callers)", 6)
+    seen_div = set()
+    for (c, vn, v, bb, e) in division_sites(prog, world, sem):
+        local = v.be.ev_call(bb, v.body.blocks[bb].term)
+        prim = (e.info if e.op == "call" else "div").rsplit("::", 1)[-1]
+        di = DIV_PRIMS.get(prim, 1)
+        d, dl = e.args[di], local.args[di]
+        fk = "%s %s" % (v.body.path, show(_strip(world, dl), 3))
+        if (c, vn, fk) in seen_div:
+            continue
+        seen_div.add((c, vn, fk))
+
+        def factors(x):
+            x = _strip(world, x)
+            if x.op == "bin" and x.info == "Mul":
+                return factors(x.args[0]) + factors(x.args[1])
+            return [x]
+        bad = []
+        for (fl, fr) in zip(factors(dl), factors(d)) if len(factors(dl)) == len(factors(d)) else [(x, x) for x in factors(d)]:
+            if _const_nonzero(prog, world, fr) or _const_nonzero(prog, world, fl):
+                continue
+            lab = sem.label(fr)
+            if lab in NONZERO_BY_INVARIANT:
+                continue
+            cands = set(_forms(world, fl)) | set(_forms(world, fr))
+            ok, desc = site_guarded(sem, v, bb, lambda f, resolve, cands=cands: nonzero_fact(world, f, resolve, cands))
+            if not ok:
+                bad.append("divisor %s is not known to be non-zero (%s)" % (show(fr, 4), desc))
+        rep.ob("C09.d", "%s::%s division in %s" % (c, vn, v.body.path), not bad, "; ".join(bad) if bad else "divisor %s constant, invariant-backed or guarded" % show(_strip(world, dl), 3),
+               where(v.body, bb), key="C09.d | %s::%s | %s" % (c, vn, fk), fkey=fk)
     g = XGraph(prog, world, sem)
     starts = list(EXIT_ENTRIES)
     for c in ("bsei", "stsei"):
